@@ -212,6 +212,79 @@ def inner_root_profile(Fc):
     return int((im == 0).sum()), (float(nz.min()) if len(nz) else None)
 
 
+def near_collision_cheb(rng, d, tries=40, lo_exp=-7.8, hi_exp=-2.2):
+    """the same for phase finding: Chebyshev coefficient vector c (degree d, definite parity, 1-norm in [0.15, 0.85],
+    |c_d| >= 0.12 |c|_1 - inside C03's real family) such that the capitalised, rescaled Laurent polynomial the default
+    call completes, F = suc*(p + eps/2 x^d) with eps = 1e-4, suc = 1-1e-4, has an inner conjugate root pair of
+    1 - F F~ with a small imaginary part (log-uniform in 10^lo_exp .. 10^hi_exp).  Returns (c, imag) or None."""
+    eps, suc = 1e-4, 1 - 1e-4
+
+    def laurent(c):
+        cc = np.array(c, dtype=float).copy()
+        # eps/2 x^d in the Chebyshev basis only matters at order 1e-4: add it to the leading coefficient scale-correctly
+        mono = np.polynomial.chebyshev.cheb2poly(cc)
+        mono = np.concatenate([mono, np.zeros(d + 1 - len(mono))])
+        mono[d] += eps / 2
+        cc = np.polynomial.chebyshev.poly2cheb(suc * mono)
+        cc = np.concatenate([cc, np.zeros(d + 1 - len(cc))])
+        idx = [k for k in range(d, -1, -2)]
+        F = np.zeros(d + 1)              # powers -d, -d+2, ..., d
+        for k in idx:
+            if k == 0:
+                F[d // 2] = cc[0]
+            else:
+                F[(d - k) // 2] = cc[k] / 2
+                F[(d + k) // 2] = cc[k] / 2
+        return F
+    for _ in range(tries):
+        c = np.zeros(d + 1)
+        idx = list(range(d, -1, -2))
+        c[idx] = rng.normal(size=len(idx))
+        c = c / np.abs(c).sum() * float(rng.uniform(0.2, 0.8))
+        if abs(c[d]) < 0.15 * np.abs(c).sum():
+            c[d] = math.copysign(0.2 * np.abs(c).sum(), c[d] or 1.0)
+            c = c / np.abs(c).sum() * float(rng.uniform(0.2, 0.8))
+        if len(idx) >= 2 and rng.random() < 0.6:
+            # leading coefficient small and of the sign opposite to the next one: p has an extremum just outside [-1, 1], and
+            # p = +-1 there is a double real root of 1 - F F~ (the typical way two real roots collide inside this family)
+            a = float(rng.uniform(0.102, 0.3 if d >= 6 else 0.14)); b = float(rng.uniform(0.4 if d >= 6 else 0.75, 0.97 - a))
+            c[:] = 0.0
+            c[d] = -a * float(rng.choice([-1, 1])); c[d - 2] = -math.copysign(b, c[d])
+            rest = 1 - a - b
+            for k in idx[2:]:
+                c[k] = float(rng.normal()) * rest / max(1, len(idx) - 2) * 0.5
+            c = c / np.abs(c).sum() * float(rng.uniform(0.3, 0.88))
+        j = int(rng.choice(idx))
+        ts = np.linspace(-0.25, 0.25, 101)
+        counts = []
+        for t in ts:
+            w = c.copy(); w[j] += t
+            counts.append(inner_root_profile(laurent(w))[0])
+        k = next((i for i in range(len(ts) - 1) if counts[i] != counts[i + 1]), None)
+        if k is None:
+            continue
+        lo, hi, clo = float(ts[k]), float(ts[k + 1]), counts[k]
+        for _b in range(80):
+            mid = 0.5 * (lo + hi)
+            if mid == lo or mid == hi:
+                break
+            w = c.copy(); w[j] += mid
+            if inner_root_profile(laurent(w))[0] == clo:
+                lo = mid
+            else:
+                hi = mid
+        side = lo if clo < counts[k + 1] else hi
+        sign = -1.0 if side == lo else 1.0
+        target = 10.0 ** float(rng.uniform(lo_exp, hi_exp))
+        for e in np.arange(-16.5, -1.5, 0.125):
+            w = c.copy(); w[j] += side + sign * 10.0 ** e
+            nreal, im = inner_root_profile(laurent(w))
+            n1 = float(np.abs(w).sum())
+            if im is not None and target <= im < 4 * target and 0.105 <= n1 <= 0.895 and abs(w[d]) >= 0.1005 * n1:
+                return [float(x) for x in w], im
+    return None
+
+
 def near_collision(rng, n, tries=40):
     """A real Laurent coefficient vector F (length n+1, 1-norm <= 0.9, extremes >= 1e-3) sitting just on the complex
     side of a "two real roots of 1 - F F~ collide" event: an inner conjugate root pair with imaginary part between
@@ -246,11 +319,11 @@ def near_collision(rng, n, tries=40):
         # walk away from the collision on the side with FEWER real roots until the pair's imaginary part is in the window
         side = lo if clo < counts[k + 1] else hi
         sign = -1.0 if side == lo else 1.0
-        target = 10.0 ** float(rng.uniform(-7.8, -6.2))
-        for e in np.arange(-16.5, -9.0, 0.125):
+        target = 10.0 ** float(rng.uniform(-7.8, -6.2) if rng.random() < 0.5 else rng.uniform(-7.8, -2.2))
+        for e in np.arange(-16.5, -1.5, 0.125):
             t = side + sign * 10.0 ** e
             w = v.copy(); w[j] += t
             nreal, im = inner_root_profile(w)
-            if im is not None and target <= im < 8e-7 and np.abs(w).sum() <= 0.9 and abs(w[0]) >= 1e-3 and abs(w[-1]) >= 1e-3:
+            if im is not None and target <= im < 4 * target and np.abs(w).sum() <= 0.9 and abs(w[0]) >= 1e-3 and abs(w[-1]) >= 1e-3:
                 return [float(x) for x in w], im
     return None
